@@ -122,7 +122,27 @@ func VerifH20b() {
 	// the Parse message may pre-specify any number of parameter types; whatever
 	// it says, Describe announces what the ParseFn declared
 	np := vChoose(4)
-	pbody := vCat(vCStr(nil), vCStr(q), vU16(np))
+	// NAMES=1: the statement is stored under the unnamed slot, a short name or a
+	// long name (71 bytes), and ANOTHER statement with three placeholders is
+	// parsed afterwards under a different name (for the long name: one that
+	// differs in its last byte only): Describe still announces this one's count
+	var name, sibling []byte
+	if vParam("NAMES", 0) == 1 {
+		long := make([]byte, 70)
+		for i := range long {
+			long[i] = 'n'
+		}
+		switch vChoose(3) {
+		case 0:
+			sibling = []byte("b")
+		case 1:
+			name, sibling = []byte("a"), []byte("b")
+		case 2:
+			name, sibling = vCat(long, []byte("a")), vCat(long, []byte("b"))
+			vReach("long-names-differing-in-the-last-byte")
+		}
+	}
+	pbody := vCat(vCStr(name), vCStr(q), vU16(np))
 	for k := 0; k < np; k++ {
 		pbody = append(pbody, vU32(nondetU32())...)
 	}
@@ -131,8 +151,14 @@ func VerifH20b() {
 	if np > 0 && np != n {
 		vReach("prespecified-type-count-differs")
 	}
+	if sibling != nil {
+		keep := n
+		other := vCat(vCStr(sibling), vCStr([]byte("$3")), vU16(0))
+		vAssert("sibling-parse-ok", w.ses.handleParse(w.ctx, &buffer.Reader{Msg: other, MaxMessageSize: 64}, w.wr) == nil)
+		n = keep
+	}
 	w.conn.out = nil
-	dbody := vCat([]byte{'S'}, vCStr(nil))
+	dbody := vCat([]byte{'S'}, vCStr(name))
 	vAssert("describe-ok", w.ses.handleDescribe(w.ctx, &buffer.Reader{Msg: dbody, MaxMessageSize: 64}, w.wr) == nil)
 	msgs, ok := vFrames(w.conn.out)
 	vAssert("describe-replies", ok && len(msgs) == 2 && msgs[0].typ == 't' && vBodyOK(msgs[0]))
